@@ -499,6 +499,42 @@ def parse_flat(out):
     return json.loads(body.replace('None', 'null'))
 
 
+def check_metadata_names(ctx):
+    """Every parameter name of every section layout (also the names an edition does NOT have), as '%name' and '%k.name',
+    substituted in a script run on messages of editions 2, 3 and 4 with and without section 2, fully decoded and
+    metadata-only: the variable is the property's own reading of the expression (metadata_reference)."""
+    from pybufrkit.decoder import Decoder
+    from pybufrkit.script import ScriptRunner
+    from props import frame_common as fc
+    names = fc.all_param_names() + ['nosuchname']
+    rng = ctx.rng
+    for ed in (2, 3, 4):
+        for sec2o in (None, b'\xa5\x5a'):
+            b = fc.craft(ed, '0110', sec2o, {}, rng=rng)
+            for info in (False, True):
+                msg = Decoder().process(b, info_only=info)
+                exprs = ['%' + n for n in names] + ['%1.' + n for n in names]
+                for i in range(0, len(exprs), 16):
+                    chunk = exprs[i:i + 16]
+                    script = ''.join('v%d = ${%s}\n' % (j, e) for j, e in enumerate(chunk))
+                    case = {'edition': ed, 'section2': sec2o is not None, 'info_only': info, 'script': script, 'message': b.hex()}
+                    ctx.count(('metadata-names', ed, sec2o is not None, info, i))
+                    ctx.dist['metadata-name-scripts'] += 1
+                    try:
+                        with lib.time_limit(60):
+                            variables = ScriptRunner(script).run(msg)
+                    except Exception as e:
+                        ctx.violation(dict(case, kind='script-metadata-names-error', error='%s: %s' % (type(e).__name__, str(e)[:200])),
+                                      'metadata-only script raised %r' % e)
+                        continue
+                    for j, e in enumerate(chunk):
+                        want = metadata_reference(msg, e)
+                        if variables.get('v%d' % j) != want:
+                            ctx.violation(dict(case, kind='script-binding-value', expr=e, impl=repr(variables.get('v%d' % j))[:200],
+                                               model=repr(want)[:200]),
+                                          'edition %d: ${%s} bound to %r, the sections give %r' % (ed, e, variables.get('v%d' % j), want))
+
+
 def check_real_scripts(ctx, n_files, n_scripts):
     from pybufrkit.decoder import Decoder
     from pybufrkit.script import ScriptRunner
@@ -701,6 +737,7 @@ def run(ctx):
     check_pragma(ctx, ctx.n(3000, 60000))
     check_metadata_only(ctx, ctx.n(1500, 20000))
     check_flatten(ctx, ctx.n(1500, 30000))
+    check_metadata_names(ctx)
     check_real_scripts(ctx, ctx.n(4, 6), ctx.n(6, 40))
 
     # --- extraction cross-check by vm_compute -----------------------------------
@@ -733,6 +770,26 @@ def run(ctx):
 
 
 def replay(ctx, rec):
+    if 'case' not in rec and 'script' in rec:
+        # a script run on a message: run it again and compare every metadata substitution with the sections
+        from pybufrkit.decoder import Decoder
+        from pybufrkit.script import ScriptRunner
+        if 'message' in rec:
+            msg = Decoder().process(bytes.fromhex(rec['message']), info_only=bool(rec.get('info_only')))
+        else:
+            with open(os.path.join(lib.REPO, rec['file']), 'rb') as f:
+                msg = Decoder().process(f.read())
+        runner = ScriptRunner(rec['script'], data_values_nest_level=rec.get('arg'))
+        variables = runner.run(msg)
+        bad = []
+        for expr, name in runner.substitutions.items():
+            if expr.strip().startswith('%'):
+                want = metadata_reference(msg, expr)
+                if variables[name] != want:
+                    bad.append((expr, repr(variables[name])[:100], repr(want)[:100]))
+        if bad:
+            ctx.violation({'kind': rec.get('kind', 'replay'), 'script': rec['script'], 'differences': bad})
+        return {'differences': bad}
     line = rec['case']['cmd']
     mo = lib.run_model([line])[0]
     toks = line.split(' ')
